@@ -1,7 +1,8 @@
 """C03 - reported rates equal backing over claims and price every mint/redeem: structural clauses (DESIGN 6, C03).
 Also hosts the shared context enumeration used by C04."""
 from ..callgraph import explore, storage_effects, message_effects, call_sites, written_value_in, site_guarded
-from ..expr import show, find, E, simplify, arith_args
+from ..ir import strip_generics
+from ..expr import mk_phi, show, find, E, simplify, arith_args
 from .common import entry, variant_env, stored, where, arm_handler
 from .hub_common import (receive_handlers, subtree, Roles, resync_fns, recompute_fns, HUBCFG, PARAMS, STATE, BATCH, TOKENS)
 from .msgs import wasm_execute
@@ -12,9 +13,31 @@ RATE = {"bsei": "bsei_exchange_rate", "stsei": "stsei_exchange_rate"}
 POOLF = {"bsei": "total_bond_bsei_amount", "stsei": "total_bond_stsei_amount"}
 
 
+def through_pure(world, x, depth=0):
+    """look through pure workspace helpers that merely compute a value from their arguments (e.g. `compute_mint_amount(bond_type, ..)`,
+    specialised for constant arguments), except the two-argument leaf arithmetic helpers (the decimal division) which the rules
+    recognise as such"""
+    x = world.ident(x, expand_ws=False)
+    if depth > 4:
+        return x
+    if x.op == "phi":
+        return mk_phi([through_pure(world, a, depth + 1) for a in x.args])
+    c = x.args[0] if x.op == "proj" and x.info == "ok" else x
+    if c.op == "call":
+        b = world.callee_body(c)
+        if b is not None and b.is_fn() and world.is_pure(b):
+            leaf = len(c.args) == 2 and not any(world.prog.bodies.get(strip_generics(bl.term.callee.dpath)) is not None for bl in b.calls())
+            if not leaf:
+                ex = world.expand(c)
+                alts = world._ok_alts(ex, "ok", 0, False) if x.op == "proj" else [ex]
+                if alts:
+                    return mk_phi([through_pure(world, a, depth + 1) for a in alts])
+    return x
+
+
 def signed_terms(world, e, sign=1):
     """[(sign, leaf)] of nested Add / Sub / checked_sub"""
-    x = world.ident(e, expand_ws=False)
+    x = through_pure(world, e)
     if x.op == "proj":
         x = x.args[0]
     if x.op == "call" and x.info == "std::result::Result::map_err":
@@ -237,7 +260,7 @@ def run(prog, world, sem, rep):
             for (s, amt, k2, v2, b2) in tm[tk]:
                 if k2 != "Mint":
                     continue
-                an = world.norm(amt, 0, False)
+                an = world.norm(through_pure(world, amt), 0, False)
                 alts = an.args if an.op == "phi" else (an,)
                 bad = []
                 n_div = 0
